@@ -263,6 +263,14 @@ def body():
             for ex_ in (mexe, rexe):
                 mjobs.append((proto, sp + "_d2", "client", "-", (dev, ex_)))
                 mjobs.append((proto, sp + "_d2", "server", "trust_root", (dev, ex_)))
+    # hello messages of TLS 1.3 with a missing or emptied extension (key_share, supported_versions, signature_algorithms ...): what the receiver does not find
+    # it must not use (fix afd976b: the client ran the ECDH on a key share that was never written); deterministic in both tiers, MemorySanitizer build
+    for role, t in (("client", 1), ("server", 2)):
+        for p in eprogs:
+            if p[0][1] in ("drop", "empty"):
+                mjobs.append((772, "srv_d2", role, "trust_root", (t, p)))
+    for dev in ("no_key_share", "key_share_empty"):
+        mjobs.append((772, "srv_d2", "server", "trust_root", (dev, mexe, "refuse")))
     mdone = 0
     os.environ["VH_RECV_AGAIN"] = "1"
     with cf.ProcessPoolExecutor(14) as ex:
@@ -270,6 +278,7 @@ def body():
         for j in mjobs:
             proto, cred, role, mutual, mp = j
             dev, exe_, mp_ = ("honest", mexe, mp) if (mp is None or not isinstance(mp[0], str)) else (mp[0], mp[1], None)
+            j = (proto, cred, role, mutual, mp if (mp is None or not isinstance(mp[0], str)) else (mp[0], mp[1]) + tuple(mp[2:]))
             if role == "client":
                 futs[ex.submit(roguepeer.run, rcreds, exe_, proto, cred, mutual, dev, "cli_d2", 60, mp_)] = j
             else:
@@ -290,6 +299,9 @@ def body():
             ended = any(e.get("e") == "End" for e in evs)
             if san or not ended:
                 c.violation(key, "a library endpoint used uninitialised memory (MemorySanitizer), crashed or hung in a handshake with the independent peer: %s" % str(san)[:500], {"peer_view": view, "events": evs, "report": str(san)[:3000]})
+            elif posths and len(mp) > 2:
+                if any(e.get("e") == "HsRet" and e.get("rc") == 1 for e in evs):
+                    c.violation(key, "the handshake completed although the hello lacked what the key exchange needs", {"peer_view": view, "events": evs})
             elif (mp is None or posths) and not any(e.get("e") == "HsRet" and e.get("rc") == 1 for e in evs):
                 c.violation(key, "the honest handshake with the independent peer did not complete under the sanitizer build", {"peer_view": view, "events": evs})
             elif posths:
